@@ -27,7 +27,7 @@ REQUIRED_THEOREMS = [
     "M1LSeq.clean_call_returns_seq",
 ]
 EXTRA_LEAN_MODULES = ("JoblibProofs.M1L", "JoblibProofs.M1LSeq")
-EXTRA_LEAN_TARGETS = ("drv_m1l", "drv_m1lseq")
+EXTRA_LEAN_TARGETS = ("drv_m1l", "drv_m1lseq", "drv_m1lu")
 TRUSTED_EXTRA = [
     "M1L / M1L-Seq (theorems M1L.*, M1LSeq.*): the ordered generator consumed to the end and sequences of calls with callback threads of earlier calls still alive, at lock-boundary granularity, every interleaving; tied by step-log equality of forced real-thread schedules (harness/m1_lock.py); abandoned generators and generator_unordered are NOT in these two models (M1 only)",
     "M1 granularity: completion callbacks are atomic and happen at hook points of the caller (configure, compute_batch_size, sleep, consumer "
